@@ -118,6 +118,14 @@ func main() {
 		r.WriteGen("C04_Tables.lean", genTables())
 		return
 	}
+	if r.Mode == "battery" { // debugging aid: print the battery package and check it
+		j := batteryJobs()
+		fmt.Println(j.src)
+		if _, err := parseAndCheck("bat.wuffs", []byte(j.src)); err != nil {
+			fmt.Println("REJECTED:", err)
+		}
+		return
+	}
 	if r.Mode == "sexpr" { // debugging aid: -mode sexpr -replay file.wuffs
 		src, err := os.ReadFile(r.Replay)
 		if err != nil {
@@ -157,7 +165,7 @@ func main() {
 func runExec(r *hlib.Run, tc *toolchain) {
 	nPkgs, perPkg, workers := 5, 14, 5
 	if r.Thorough {
-		nPkgs, perPkg, workers = 400, 12, 14
+		nPkgs, perPkg, workers = 250, 12, 12
 	}
 	t0 := time.Now()
 	// phase 1: generate (sequential: deterministic for the seed)
